@@ -48,6 +48,11 @@ CLAIMED = {
             "bounded model checking (wrapper scope): for 0..2 inputs and every outcome of opening, compiling and writing, each input in order goes through for_path, push_path(--load-path) "
             "if given, with_format(Format{--style, --precision}), transform, and exactly the bytes returned go to stdout; the first failure ends the run with Err, which main turns into "
             "`Error: …` on stderr and a failure exit code, Ok into exit 0; --load-path is appended after the input file's directory; clap's parsing is covered by native probes only"),
+    "C07": ("E2", "symbolic execution of the tail of CssData::into_buffer (MIR) over an arbitrary written buffer (symbolic length, last bytes, is_ascii and style; Vec<u8> modelled by length and "
+            "trailing bytes); bit-vector obligations decided by z3 and cvc5 on every path",
+            "bounded model checking (frame scope): for every written buffer with up to 4 trailing newlines the result is empty or ends with exactly one newline; it is the buffer itself exactly "
+            "when that is pure ASCII and otherwise the buffer behind `@charset \"UTF-8\";` (expanded) or a byte-order mark (compressed); only trailing newlines and one `;` (compressed) are "
+            "removed; what the item writers put into the buffer (brace balance, line breaks inside compressed output) is outside"),
     "C06": ("E2", "symbolic execution of the closures' MIR, obligations decided by z3 and cvc5",
             "bounded model checking (sequential scope): one inductive step of unique-id() from an arbitrary counter state; random($limit) in "
             "[1,limit] for every limit; concurrency is outside the claim"),
@@ -110,7 +115,6 @@ CLAIMED = {
 
 NOT_APPLICABLE = {
     "C05": "histories of compilations and thread schedules: Kani does not model concurrency and the sequential part needs whole compilations",
-    "C07": "property of whole output buffers (CssBuf, into_buffer): needs parser + evaluator + core::fmt, which CBMC cannot execute (one concrete byte through the parser: no verdict in 900 s)",
     "C08": "relation between two whole compilations (expanded vs compressed): whole-program",
     "C09": "round trip through the plain-CSS parser: nom parser is out of reach",
     "C10": "the kernel is a Display impl interleaving digit extraction with write! into a String and f64: Display (concrete 1.5: no verdict in 200 s); 'printed decimal = correctly rounded binary' needs FP<->Real reasoning no solver here finishes",
